@@ -436,7 +436,9 @@ impl<'a, RK: RadioKind, C: Probe> Driver<'a, RK, C> {
         // (the statement's heading: driver and chip never disagree; judged at the quiescent point after
         // a call that returned Ok: a driver that records Standby or Sleep while the chip transmits,
         // receives or scans, or Sleep on one side only)
-        if matches!(res, Res::Ok) && !tainted && call.in_statement() {
+        // (only while no bus fault has been injected: once a transaction was lost the driver cannot know
+        // what reached the chip, and what the statement demands then is clause (d))
+        if matches!(res, Res::Ok) && !tainted && call.in_statement() && sh.fault_hit.is_none() && !self.failed.iter().any(|f| *f) {
             let chip_busy = matches!(chip_mode, Mode::Tx | Mode::Rx | Mode::Cad);
             let bad = match after {
                 RadioMode::Standby => chip_busy || chip_mode == Mode::Sleep,
